@@ -43,9 +43,13 @@ func (d *Directory) Mangle(callback MangleFunc) (*Mangler, error) {
 		indir:  d.DirLoc,
 		insize: d.Size,
 	}
+	var pos int64
 	for _, f := range d.File {
 		mf := &MangleFile{File: *f, m: m}
 		if err := callback(mf); err != nil {
+			return nil, err
+		}
+		if err := mf.CheckContiguous(&pos); err != nil {
 			return nil, err
 		}
 		if mf.deleted {
@@ -59,6 +63,9 @@ func (d *Directory) Mangle(callback MangleFunc) (*Mangler, error) {
 				return nil, err
 			}
 		}
+	}
+	if pos != d.DirLoc {
+		return nil, ErrNotContiguous
 	}
 	return m, nil
 }
